@@ -170,6 +170,12 @@ def guards(body, bb, cd=None, skip_try=True, _seen=None):
     return out
 
 
+def dom_guards(body, bb, cd=None, skip_try=True):
+    """The guards of bb that hold on *every* execution reaching bb: branch edges (a -> s) whose target s
+    dominates bb.  (`guards` also returns conditions inherited around loop back edges, in both polarities.)"""
+    return [(a, s, c) for (a, s, c) in guards(body, bb, cd, skip_try) if body.dominates(s, bb)]
+
+
 def rpo(body):
     """Reverse post-order of non-cleanup blocks reachable from entry (normal edges)."""
     seen = set()
